@@ -339,9 +339,49 @@ fn fail<T>(clause: &str, detail: String) -> Result<T, Stop> {
 	}))
 }
 
+/// Errors that carry an OS error code come from the scratch file system (ENOSPC, EIO, ...).
+fn is_env_error(msg: &str) -> bool {
+	msg.contains("os error")
+}
+
 fn open_backend<T: Elem>(dir: &str, prunable: bool) -> Result<PMMRBackend<T>, Stop> {
-	PMMRBackend::new(dir.to_string(), prunable, ProtocolVersion(1), None)
-		.map_err(|e| Stop::Io(format!("PMMRBackend::new: {}", e)))
+	PMMRBackend::new(dir.to_string(), prunable, ProtocolVersion(1), None).map_err(|e| {
+		let msg = format!("PMMRBackend::new: {:?}", e);
+		if is_env_error(&msg) {
+			Stop::Io(msg)
+		} else {
+			// the store cannot be reopened at all: nothing of the live data is reported any more
+			Stop::Fail(Fail {
+				clause: "reopen_error".into(),
+				detail: msg,
+			})
+		}
+	})
+}
+
+/// `sync` / `check_compact` returned an error. The error itself is not the refuting event:
+/// the state is compared with the reference as if the operation had been performed; only a
+/// mismatch is a violation (an error without OS code on a healthy file system and a wrong
+/// state afterwards), otherwise the program ends as inconclusive.
+fn after_op_error<T: Elem>(
+	be: &mut PMMRBackend<T>,
+	m: &Model<T>,
+	size: u64,
+	prunable: bool,
+	prng: &mut Prng,
+	st: &mut Stats,
+	what: String,
+) -> Stop {
+	if is_env_error(&what) {
+		return Stop::Io(what);
+	}
+	match check(be, m, size, prunable, true, false, prng, st) {
+		Err(Stop::Fail(mut f)) => {
+			f.detail = format!("{} (after {})", f.detail, what);
+			Stop::Fail(f)
+		}
+		_ => Stop::Io(what),
+	}
 }
 
 /// Compare the real backend with the reference. `synced`: no uncommitted work.
@@ -827,9 +867,12 @@ fn program<T: Elem>(
 		// ---- commit or discard
 		match prng.below(100) {
 			0..=71 => {
-				be.sync().map_err(|e| Stop::Io(format!("sync: {}", e)))?;
-				st.syncs += 1;
 				tr.op("sync", "sync".into());
+				if let Err(e) = be.sync() {
+					let what = format!("sync error: {:?}", e);
+					return Err(after_op_error(&mut be, &m, size, prunable, &mut prng, st, what));
+				}
+				st.syncs += 1;
 				check(&mut be, &m, size, prunable, true, false, &mut prng, st)?;
 			}
 			72..=93 => {
@@ -881,8 +924,10 @@ fn program<T: Elem>(
 						rm.iter().collect::<Vec<u32>>()
 					),
 				);
-				be.check_compact(m.blks[c].size, &rm)
-					.map_err(|e| Stop::Io(format!("check_compact: {}", e)))?;
+				if let Err(e) = be.check_compact(m.blks[c].size, &rm) {
+					let what = format!("check_compact error: {:?}", e);
+					return Err(after_op_error(&mut be, &m, size, prunable, &mut prng, st, what));
+				}
 				let after = (be.hash_size(), be.data_size());
 				if after.0 < before.0 || after.1 < before.1 {
 					st.compact_removing += 1;
@@ -1029,8 +1074,11 @@ fn run_store_program(run: &Run, sc: &Scratch, cfg: &ProgCfg, totals: &Mutex<Tota
 		Ok(Err(Stop::Io(msg))) => {
 			run.inconclusive(&format!("program {}: I/O error (environment): {}", cfg.idx, msg));
 		}
-		Ok(Ok(())) => {}
+		Ok(Ok(())) => {
+			run.count("store_programs_completed", 1);
+		}
 	}
+	run.count("store_programs_started", 1);
 	if verbose {
 		for o in &tr.ops {
 			println!("  {}", o);
@@ -1909,7 +1957,7 @@ fn main() {
 	}
 
 	// ---------------- budgets
-	let n_programs: u64 = if is_san { 40 } else { run.tier.pick(560, 30_000) };
+	let n_programs: u64 = if is_san { 80 } else { run.tier.pick(560, 30_000) };
 	let time_budget_s: f64 = if is_san { 3000.0 } else { run.tier.pick(70.0, 600.0) };
 	// chain scenarios run in worker processes (block processing / validation take the
 	// process-global secp mutex, threads would serialise them)
@@ -1975,7 +2023,7 @@ fn main() {
 		run.count(&format!("store_programs_{}", k), *v);
 	}
 
-	let d = if is_san { 10 } else { 1 };
+	let d = if is_san { 25 } else { 1 };
 	let q = |quick: u64, thorough: u64| -> u64 { run.tier.pick(quick, thorough) / d };
 	run.require("store programs (fixed, prunable)", *t.programs.get("fixed-prunable").unwrap_or(&0), q(200, 1000));
 	run.require("store programs (variable size, non-prunable)", *t.programs.get("variable-nonprunable").unwrap_or(&0), q(80, 400));
@@ -1992,6 +2040,12 @@ fn main() {
 	for i in 0..8 {
 		run.require(&format!("spend pattern {}", PATTERNS[i]), st.patterns[i], q(150, 750));
 	}
+	let started = run.counter("store_programs_started");
+	run.require(
+		"store programs that ran to their end (no environment error, no violation)",
+		run.counter("store_programs_completed"),
+		started - started / 20,
+	);
 	if !is_san {
 		let n_chain = n_chain as u64;
 		run.require("chain scenarios completed", run.counter("chain_scenarios_completed"), n_chain);
